@@ -63,7 +63,7 @@ TOLERANCES = {
     'boundary_margin_rel': 1e-5, 'iso_fugacity_lnK': 1e-4, 'TP_split_V': 1e-5, 'ideal_RR_rtol': 1e-6, 'ideal_RR_atol_rel_total': 1e-9,
     'pure_component_saturation_rel': 1e-6,
     'scaling_rtol': 1e-6, 'scaling_atol_rel_total': 1e-9, 'scaling_T_rel': 1e-9, 'scaling_P_rel': 1e-6,
-    'reference_flash_convergence': 1e-13,
+    'reference_flash_convergence': 1e-12,
 }
 
 # ----------------------------------------------------------------------------------------------------------------
@@ -206,11 +206,12 @@ def check_V(st, action, obs):
         if pair == 'PV':
             dlt = 100 * T_TOL
             Vlo = ref.flash(z, T - dlt, P, guess=gm())[0]; Vhi = ref.flash(z, T + dlt, P, guess=gm())[0]
-            slack = abs(ref.flash(z, T + T_TOL, P, guess=gm())[0] - ref.flash(z, T - T_TOL, P, guess=gm())[0])
+            # the +-T_tol slack only ever widens the tolerance: evaluate it only when the plain tolerance is exceeded
+            slack = abs(ref.flash(z, T + T_TOL, P, guess=gm())[0] - ref.flash(z, T - T_TOL, P, guess=gm())[0]) if abs(Vs - V) > 10 * V_TOL else 0.
         else:
             dlt = 100 * P_TOL
             Vlo = ref.flash(z, T, P + dlt, guess=gm())[0]; Vhi = ref.flash(z, T, P - dlt, guess=gm())[0]
-            slack = abs(ref.flash(z, T, P - P_TOL, guess=gm())[0] - ref.flash(z, T, P + P_TOL, guess=gm())[0])
+            slack = abs(ref.flash(z, T, P - P_TOL, guess=gm())[0] - ref.flash(z, T, P + P_TOL, guess=gm())[0]) if abs(Vs - V) > 10 * V_TOL else 0.
     eps = 10 * V_TOL
     if not (Vlo - eps <= V <= Vhi + eps):
         raise Violation('V-spec-point', f'{action!r} on {st.config!r}: returned T={T!r} P={P!r}; reference vapour fraction there is {Vmid!r} '
